@@ -8,3 +8,7 @@ import Rsdns.Spec.Expand
 import Rsdns.Lemmas.Bits
 import Rsdns.Lemmas.Labels
 import Rsdns.Props.C03
+import Rsdns.Model.RData
+import Rsdns.Model.Reader
+import Rsdns.Model.RecordSet
+import Rsdns.Model.NameText
